@@ -25,16 +25,25 @@ def signatures(prop):
     return d
 
 
+def run_many(items):
+    """items: list of (patch, prop). Runs PAR mutant checks at a time, each on 16 // PAR worker processes."""
+    import concurrent.futures as cf
+    par = int(os.environ.get("VERIF_MATRIX_PAR", "4"))
+    os.environ["VERIF_JOBS"] = str(max(2, 16 // par))
+    with cf.ThreadPoolExecutor(max_workers=par) as tp:
+        return list(tp.map(lambda it: run_mutant(*it), items))
+
+
 def main():
     args = [a for a in sys.argv[1:] if not a.startswith("--")]
     rows = []
     seeded = sorted(d for d in os.listdir(os.path.join(VERIF, "seeded")) if os.path.isdir(os.path.join(VERIF, "seeded", d)))
-    for name in ([] if "--only-wb" in sys.argv else seeded):
+    todo = [name for name in ([] if "--only-wb" in sys.argv else seeded)
+            if not args or name.split("-")[0] in args or name in args]
+    results = run_many([(os.path.join(VERIF, "seeded", name, "patch.diff"), name.split("-")[0]) for name in todo])
+    for name, (rc, out) in zip(todo, results):
         prop = name.split("-")[0]
-        if args and prop not in args and name not in args:
-            continue
         d = os.path.join(VERIF, "seeded", name)
-        rc, out = run_mutant(os.path.join(d, "patch.diff"), prop)
         log = open(os.path.join(d, "verify.log")).read().strip().splitlines()[-1] if os.path.exists(os.path.join(d, "verify.log")) else ""
         first = ""
         for line in out.splitlines():
@@ -55,25 +64,20 @@ def main():
         rows.append((name, prop, "detected" if rc == 1 else f"MISSED (exit {rc})", NEEDS.get(name, "")))
         print(rows[-1][:3], flush=True)
     if "--mutants" in sys.argv:
-        for fn in sorted(os.listdir(os.path.join(VERIF, "mutants"))):
-            if not fn.endswith(".patch"):
-                continue
-            m = re.match(r"(?:revert_)?(C\d\d)", fn)
-            prop = m.group(1)
-            if args and prop not in args:
-                continue
-            rc, out = run_mutant(os.path.join(VERIF, "mutants", fn), prop)
+        fns = [fn for fn in sorted(os.listdir(os.path.join(VERIF, "mutants"))) if fn.endswith(".patch")]
+        fns = [fn for fn in fns if not args or re.match(r"(?:revert_)?(C\d\d)", fn).group(1) in args]
+        results = run_many([(os.path.join(VERIF, "mutants", fn), re.match(r"(?:revert_)?(C\d\d)", fn).group(1)) for fn in fns])
+        for fn, (rc, out) in zip(fns, results):
+            prop = re.match(r"(?:revert_)?(C\d\d)", fn).group(1)
             rows.append(("mutants/" + fn, prop, "detected" if rc == 1 else f"MISSED (exit {rc})", ""))
             print(rows[-1][:3], flush=True)
     if "--wb" in sys.argv:
         wrows = []
-        for fn in sorted(os.listdir(os.path.join(VERIF, "mutants", "wb"))):
-            if not fn.endswith(".patch"):
-                continue
+        fns = [fn for fn in sorted(os.listdir(os.path.join(VERIF, "mutants", "wb"))) if fn.endswith(".patch")]
+        fns = [fn for fn in fns if not args or fn.split("-")[0] in args]
+        results = run_many([(os.path.join(VERIF, "mutants", "wb", fn), fn.split("-")[0]) for fn in fns])
+        for fn, (rc, out) in zip(fns, results):
             prop = fn.split("-")[0]
-            if args and prop not in args:
-                continue
-            rc, out = run_mutant(os.path.join(VERIF, "mutants", "wb", fn), prop)
             wrows.append((fn, prop, "detected" if rc == 1 else f"MISSED (exit {rc})"))
             print(wrows[-1], flush=True)
         if not args:
